@@ -1,5 +1,6 @@
 """C09 -- error correction never reports success on a word that is not a codeword."""
 import common
+import corpus
 import gfpy
 from vlib import fmt_list
 
@@ -47,6 +48,7 @@ def gen_cases(rng, tier, ctx):
         for _ in range(4 if big else (400 if n < 20 else 40) * reps):
             r = [rng.below(256) for _ in range(n)]
             cs.append({'line': 'rs_decode %d %s' % (i, fmt_list(r)), 'cat': 'random-word', 'sym': i, 'orig': None, 'w': None})
+    cs += corpus.rs_cases()
     return cs
 
 
